@@ -40,7 +40,7 @@ def main():
     pids = (a.pids or meta.get("property", "")).split(",")
     tmp = tempfile.mkdtemp(prefix="seedwt_")
     wt = os.path.join(tmp, "wt")
-    res = {"when": time.strftime("%Y-%m-%dT%H:%M:%SZ", time.gmtime()), "tier": a.tier, "verif_seed": a.seed, "checks": {}}
+    res = {"when": time.strftime("%Y-%m-%dT%H:%M:%SZ", time.gmtime()), "tier": a.tier, "verif_seed": a.seed, "checks": {}, "repo_head": sh(["git", "-C", "/repo", "rev-parse", "--short", "HEAD"])[1].strip()}
     try:
         rc, out = sh(["git", "-C", "/repo", "worktree", "add", "-f", "--detach", wt, "HEAD"])
         assert rc == 0, out
@@ -59,8 +59,12 @@ def main():
             rc0, o0 = sh([PY, demo], cwd=wt, timeout=900)
             res["demo_without_patch_rc"] = rc0
         rc, out = sh(["git", "-C", wt, "apply", os.path.join(d, "patch.diff")])
-        assert rc == 0, "patch does not apply: " + out
-        if not a.skip_tests:
+        if rc != 0:
+            # written against an earlier HEAD; a later fix: commit touched the same lines
+            res["patch_applies"] = False
+            res["note"] = "patch no longer applies to /repo HEAD " + sh(["git", "-C", "/repo", "rev-parse", "--short", "HEAD"])[1].strip()
+            pids = []
+        if not a.skip_tests and res.get("patch_applies", True):
             rc, out = sh(f"cd {wt} && timeout 1500 {PY} -m pytest -q -p no:cacheprovider -n 8 test/ 2>&1 | tail -2")
             res["tests_with_patch"] = out.strip().splitlines()[-1] if out.strip() else ""
             if os.path.exists(demo):
